@@ -58,6 +58,7 @@ type Event struct {
 	Time   time.Time
 	Task   int // id of the reconcile that issued the call (0: none)
 	Force  bool
+	Fault  FaultKind // fault decided for the call that committed this change (timeout-after / crash-after are the only ones that commit)
 }
 
 // FaultKind is what the scheduler decided for one call.
@@ -153,7 +154,7 @@ func roundTrip(k Kind, o runtime.Object) runtime.Object {
 }
 
 func (a *API) emit(k Kind, t EventType, old, obj runtime.Object, c *Call) {
-	ev := Event{Seq: len(a.Log), Kind: k, Type: t, Object: obj.DeepCopyObject(), Actor: c.Actor, Verb: c.Verb, Time: a.Now(), Task: c.Task, Force: c.Force}
+	ev := Event{Seq: len(a.Log), Kind: k, Type: t, Object: obj.DeepCopyObject(), Actor: c.Actor, Verb: c.Verb, Time: a.Now(), Task: c.Task, Force: c.Force, Fault: c.Fault}
 	if old != nil {
 		ev.Old = old.DeepCopyObject()
 	}
